@@ -56,7 +56,7 @@ SECOND_SX_MS = int(os.environ.get('VERIF_SECOND_SX_MS', '1500'))
 
 
 def _well_conditioned(values, tables):
-    """Can a model be replayed faithfully with IEEE floats?  No if its magnitudes span more than nine decades or two distinct
+    """Can a model be replayed faithfully with IEEE floats?  No if its magnitudes span more than six decades or two distinct
     numbers differ by less than 1e-5 relative (a branch or table lookup then goes the other way under rounding): such a
     model lies outside A-real and a native run on it says nothing about the symbolic semantics."""
     nums = [float(x) for x in values.values()] + [float(x) for t in tables.values() for e in t['entries'] for x in (list(e[0]) + [e[1]])]
@@ -64,8 +64,8 @@ def _well_conditioned(values, tables):
     if not nz:
         return True
     mags = [abs(x) for x in nz]
-    if max(mags) > 1e9 * min(mags):
-        return False
+    if max(mags) > 1e6 * min(mags):       # (the span of _conditioned_model's range; was 1e9 - a model with values of 1 and 5e-8 replayed
+        return False                       #  differently from its symbolic path on a loaded machine, C04/PH_correction)
     return all((b - a) > 1e-5 * max(abs(a), abs(b)) for a, b in zip(nz, nz[1:]))
 
 
